@@ -21,7 +21,7 @@ impl Prop for C19 {
         "families (one driver call each): std.map under operation sequences of 0-200 inserts / finds over a small colliding key set (String keys and Int keys) vs BTreeMap (find answers, keys in order, values); list.sort / list.filter / list <> / list folds and array <> / slice / index / functor map / folds / Ord / Eq vs Vec and slice definitions; std.string len / is_empty / contains / starts_with / ends_with / find / rfind / trim* / <> / compare / split_at / slice / char_at / as_bytes vs str (multi-byte strings, indices on char boundaries); JSON: a record type with derived Serialize / Deserialize (ints, strings with escapes and non-ASCII, floats, bools, options, arrays, nested records): deserialize then serialize must parse (serde_json) to the original value; derived Eq must equal structural equality of the parsed values and derived Show must render equal values equally and different values differently; non-trivial = the input is non-empty; distinct = (family, input)"
     }
     fn phases(&self, tier: Tier) -> Vec<Phase> {
-        vec![Phase::new("drivers", tier.pick(60_000, 2_000_000)).min_cases(tier.pick(20_000, 500_000)).timeouts(120, tier.pick(400, 3000))]
+        vec![Phase::new("drivers", tier.pick(60_000, 4_000_000)).min_cases(tier.pick(20_000, 800_000)).timeouts(120, tier.pick(400, 3000))]
     }
     fn worker(&self, _ctx: &WorkerCtx) -> Box<dyn Worker> {
         crate::worker::set_cpu_budget(120.0);
